@@ -2,3 +2,4 @@ import Obl.Wire
 import Obl.Hop
 import Obl.Proto
 import Obl.Sub
+import Obl.Ids
